@@ -3,7 +3,6 @@ package mempool
 import (
 	"context"
 	"encoding/json"
-	"errors"
 	"fmt"
 	"math/rand"
 	"os"
@@ -609,7 +608,6 @@ func TestMempoolConcurrent(t *testing.T) {
 			out.Count("rounds_with_capacity_overshoot", 1)
 		}
 	}
-	_ = errors.New
 }
 
 func fmtPushes(ps []pushRec) []string {
